@@ -120,6 +120,8 @@ def exec_call(spec):
                 return canon(x.parent)
             if op == "get_with":
                 return canon(x.get_with(**spec["kw"]))
+            if op == "get_with_query":
+                return canon(x.get_with(query=spec["query"]))
             if op == "get_last":
                 return canon(x.get_last(spec["key"]))
         if f == "create":
